@@ -1174,6 +1174,9 @@ def check_C15(rep, fl):
     _ps.keep_sites(rep, fl, props_sketch.check_tinylfu, ("increment", "estimate"))
     # ... which needs a doorkeeper that recognises what it was given (contains probes the positions add set)
     _ps.keep_rules(rep, fl, props_sketch.check_C14, {"R14.1"}, rename="R15.4")
+    # ... and counters that count: a recorded lookup adds one unit to the key's own nibble and saturates there (a
+    # counter that wraps to 0, or carries into its neighbour, makes the estimate forget the lookups)
+    _ps.keep_rules(rep, fl, props_sketch.check_C13, {"R13.2"}, rename="R15.4")
     # "accounted exactly once as kept or dropped in the metrics": the counters themselves add and read correctly
     import props_store
     props_store.keep_sites(rep, fl, check_metrics_core, ("add", "Metrics::add forwards", "get sums stripes", "get_gets_dropped", "get_gets_kept", "installed once"))
